@@ -3,6 +3,6 @@ From QV Require Import Model.ZfStd Model.ZfReader Model.ZfParser Model.ZfRecOnly
 Extraction Language OCaml.
 Separate Extraction
   parse_all parser_new parser_next rdata_validate ro_all ro_next
-  render file_ok number_lines sctx0 rdata_wire wire_of
+  render file_ok number_lines sctx0 rdata_wire wire_of rfc_order impl_order
   parse_uint ipv4_from_str ipv6_from_str utf8_valid class_from_str type_from_str
   U8_MAX U16_MAX U32_MAX.
